@@ -1561,6 +1561,83 @@ def task_small_kernels(scratch, tier, seed, logdir):
     return out
 
 
+def eval_term(t, env, side=None):
+    """concrete evaluation of an extracted term (floats; harmonic / p_harmonic by their definitions),
+    used to validate the translator against the repository's own test expectations"""
+    import math
+    k = t[0]
+    if k == "c":
+        return float(t[1]) if t[2] in ("int", "real") else t[1]
+    if k == "v":
+        if t[1] in env:
+            return env[t[1]]
+        if side:
+            for s_ in side:   # sqrtN: defined by  v*v = X
+                if s_[1] == "Eq" and s_[2][0] == ("app", "Mul", (t, t), "real"):
+                    return math.sqrt(eval_term(s_[2][1], env, side))
+        raise KeyError(t[1])
+    f, a = t[1], t[2]
+    if f in ("Add", "Sub", "Mul", "Div"):
+        x, y = eval_term(a[0], env, side), eval_term(a[1], env, side)
+        return {"Add": x + y, "Sub": x - y, "Mul": x * y, "Div": (x / y if y != 0 else float("nan"))}[f]
+    if f in ("to_real", "int_cast"):
+        return eval_term(a[0], env, side)
+    if f == "harmonic":
+        n = int(eval_term(a[0], env, side))
+        return sum(1.0 / i for i in range(1, n))
+    if f == "p_harmonic":
+        n, p_ = int(eval_term(a[0], env, side)), int(eval_term(a[1], env, side))
+        return sum(1.0 / i ** p_ for i in range(1, n))
+    raise KeyError(f)
+
+
+def task_translator_validation(scratch, tier, seed, logdir):
+    """Serval-style validation: the terms the translator extracts for the estimator kernels, evaluated
+    at the spectra of the repository's own unit tests, give the values those tests expect."""
+    fns = fns_for(scratch, "sfs-core")
+    ob = Ob("translator_validation", ["theta weights", "D variances (extracted terms, evaluated concretely)"], "the Aquadro / Hamblin spectra of core/src/spectrum/stat/{theta,d}.rs tests, tolerance 1e-5")
+    try:
+        aquadro = [0, 34, 6, 4, 0, 0, 0, 0]
+        hamblin = [0, 1, 11, 4, 7, 2, 0, 0, 0, 0, 0, 0]
+        hamblin_mod = list(hamblin)
+        hamblin_mod[8] += 1
+        hamblin_mod[3] += 1
+        w = {}
+        for name, contains in (("tajima", ["binomial"]), ("watterson", ["harmonic"])):
+            c = [f for f in fns if re.search(r"stat/theta\.rs>::weight$", mir.norm_name(f.name)) and all(x in f.text for x in contains) and "unimplemented" not in f.text and "pow" not in f.text]
+            ps = [p for p in mir.Exec(c[0], STAT_MODELS).run({"_1": V("i", "int"), "_2": V("n", "int")}) if p.end == "return"]
+            w[name] = ps[0].ret
+        var = {}
+        for name, contains in (("fu_li", ["4_usize"]), ("tajima", ["9_usize"])):
+            f = mir.find_fn(fns, r"stat/d\.rs>::variance$", contains=contains)
+            ps = [p for p in mir.Exec(f, STAT_MODELS).run({"_1": ("ref", "$scs"), "$scs": V("scs", "U")}) if p.end == "return"]
+            var[name] = (ps[0].ret, ps[0].state.side)
+
+        def theta(kind, x):
+            n = len(x) - 1
+            return sum(eval_term(w[kind], {"i": i, "n": n}) * x[i] for i in range(1, n))
+
+        def dstat(kind, x):
+            n = len(x) - 1
+            S = float(sum(x[1:n]))
+            v = eval_term(var[kind][0], {"elements": len(x), "S": S}, var[kind][1])
+            if kind == "tajima":
+                return (theta("tajima", x) - theta("watterson", x)) / v
+            return (theta("watterson", x) - x[1]) / v
+        expect = [("theta_watterson(aquadro)", theta("watterson", aquadro), 17.959184), ("pi(aquadro)", theta("tajima", aquadro), 14.857143),
+                  ("d_tajima(aquadro)", dstat("tajima", aquadro), -0.995875), ("d_tajima(hamblin)", dstat("tajima", hamblin), 0.885737),
+                  ("d_fu_li(hamblin_mod)", dstat("fu_li", hamblin_mod), 1.693537)]
+        for what, got, want in expect:
+            ob.d["queries"] += 1
+            if not abs(got - want) <= 1e-5 * max(1.0, abs(want)):
+                ob.fail("inconclusive", f"translator validation: {what} evaluates to {got:.6f}, the repository's test expects {want}")
+        ob.d["nonvacuous"] = True
+        ob.d["detail"] = (ob.d["detail"] + " " + "; ".join(f"{w_}={g:.6f}" for w_, g, _ in expect)).strip()
+    except (LookupError, ValueError, RuntimeError, KeyError, IndexError, ZeroDivisionError) as e:
+        ob.fail("inconclusive", f"translator: {type(e).__name__}: {e}")
+    return [ob.done()]
+
+
 def task_main_exit(scratch, tier, seed, logdir):
     """C10 / C16 / C17: main maps every Err of run() to a message on stderr and exit status 1."""
     fns = fns_for(scratch, "sfs-cli")
@@ -1644,6 +1721,7 @@ TASKS = {
     "fstat_kernels": task_fstat_kernels,
     "error_before_output": task_error_before_output,
     "small_kernels": task_small_kernels,
+    "translator_validation": task_translator_validation,
     "shape_closures": task_shape_closures,
 }
 
